@@ -143,6 +143,8 @@ def p1_p2(chk, repo, tier):
                         s2 = merged(sig, rl.sigma)
                         if stored:
                             chk.ok("P2", key, where(c, decls[0].lineno), "stored")
+                        elif any(e.kind == "store" and e.cell and e.cell[0] == "partials" and "?" in e.cell[1:] for e in rl.events):
+                            chk.undecided("P2", key, where(c, decls[0].lineno), "a store to an unresolved partials key may be this block")
                         else:
                             chk.violation("P2", key, where(c, decls[0].lineno), "declared analytic pair is a real dependency of %s but %s never stores it under %s (stale or zero block)" % (evm, lin_name, sig_txt(s2)))
                 # stored but undeclared keys
